@@ -23,13 +23,29 @@ class Collector(CallTraceLogger):
 
 def resolve(spec):
     if isinstance(spec, str) and spec != progs.ABSENT:
-        ns = {"Dict": Dict, "Type": Type, "int": int, "str": str, "Shape": progs.Shape, "Square": progs.Square}
+        ns = {"Dict": Dict, "Type": Type, "int": int, "str": str, "Shape": progs.Shape, "Square": progs.Square, "Point": progs.Point, "Label": progs.Label}
         return eval(spec.replace("Dict[str,int]", "Dict[str, int]"), ns)
     return spec
 
 
 def only_progs(code):
+    if code.co_filename == "<string>" and code.co_name == "__init__":
+        return True      # dataclass-generated methods of the fixture classes
     return code.co_filename == progs.__file__ and not code.co_name.startswith("scn_") and code.co_name not in ("<lambda>", "<genexpr>", "<listcomp>")
+
+
+def expected_function(qualname):
+    """The function object whose code runs for this qualified name (None when it is not reachable by name)."""
+    if "<locals>" in qualname:
+        return None
+    obj = progs
+    for part in qualname.split("."):
+        obj = inspect.getattr_static(obj, part)
+    if isinstance(obj, (classmethod, staticmethod)):
+        obj = obj.__func__
+    if isinstance(obj, property):
+        obj = obj.fget
+    return inspect.unwrap(obj)
 
 
 def run_scenario(name, sample_rate=None):
@@ -49,7 +65,11 @@ def describe(tr):
 
 def matches(tr, exp):
     q, args, ret, yld = exp
-    if tr.func.__qualname__ != q or tr.func.__code__.co_filename != progs.__file__:
+    want_f = expected_function(q)
+    if want_f is not None:
+        if tr.func is not want_f:       # attributed to the function whose code ran
+            return False
+    elif tr.func.__qualname__ != q or tr.func.__code__.co_filename != progs.__file__:
         return False
     if set(tr.arg_types) != set(args):
         return False
